@@ -150,6 +150,7 @@ class Ex:
     def run(self):
         t0 = time.time()
         self._trace = []
+        unsupported = []
         while True:
             self._pos = 0
             self._fresh = itertools.count()
@@ -176,12 +177,20 @@ class Ex:
                     self.spec.post_raise(self, r.exc, r.site)
             except PathEnd:
                 pass
+            except Unsupported as e:
+                # this path cannot be followed; the others still are (their obligations are genuine), the function as a
+                # whole is reported undecided by re-raising after the exploration
+                unsupported.append(e)
+                if len(unsupported) > 64:
+                    raise
             while self._trace and self._trace[-1][1] >= self._trace[-1][0] - 1:
                 self._trace.pop()
             if not self._trace:
                 break
             self._trace[-1][1] += 1
         self.stats.t_exec = time.time() - t0
+        if unsupported:
+            raise unsupported[0]
         return self.obligations
 
     def choose(self, n, label=""):
@@ -1531,14 +1540,24 @@ class Ex:
         h = self._globals.get(key)
         if h is not None and callable(h):
             return h(self, recv, args, kwargs, node)
-        if key in self.spec.inline or "*" in self.spec.inline:
+        fallback = key not in self.spec.inline and "*" not in self.spec.inline
+        if fallback:
+            # a callee the sidecar spec does not know (e.g. a helper introduced by a refactoring): inlining the real body is
+            # always sound; bounded depth so that recursion ends as Unsupported (undecided), never as a verdict
+            self._fallback_depth = getattr(self, "_fallback_depth", 0) + 1
+            if self._fallback_depth > 4 or getattr(self.spec, "no_fallback_inline", False):
+                self._fallback_depth -= 1
+                raise Unsupported(f"call to {key} has neither a contract nor inline permission in {self.spec.qualname}")
+        try:
             cls_prev = getattr(self, "_cur_cls", None)
             self._cur_cls = ref.qualname.split(".")[0] if ref.cls is not None else None
             try:
                 return self.call_func(VFunc(ref.node, Scope(None, {"__module__": ref.relpath}), key), args, kwargs, recv=None if ref.is_static or ref.cls is None else recv)
             finally:
                 self._cur_cls = cls_prev
-        raise Unsupported(f"call to {key} has neither a contract nor inline permission in {self.spec.qualname}")
+        finally:
+            if fallback:
+                self._fallback_depth -= 1
 
     def call_method(self, recv, name, args, kwargs, node):
         if isinstance(recv, VObj):
